@@ -59,7 +59,7 @@ type genParams struct {
 }
 
 const (
-	nInstKinds = 32
+	nInstKinds = 34
 	nTermKinds = 6
 )
 
@@ -170,8 +170,9 @@ var (
 	tP32 = types.NewPointer(types.I32)
 	tP8  = types.NewPointer(types.I8)
 	// {i32, i1}: the result type of cmpxchg on i32.
-	tPair = types.NewStruct(types.I32, types.I1)
-	tVec  = types.NewVector(2, types.I32)
+	tPair  = types.NewStruct(types.I32, types.I1)
+	tVec   = types.NewVector(2, types.I32)
+	tPPair = types.NewPointer(tPair)
 )
 
 func retType(k int) types.Type {
@@ -205,6 +206,13 @@ func paramType(k int) types.Type {
 func (mc *machine) uniq(scope map[string]bool, name string) string {
 	if name == "" {
 		return ""
+	}
+	if scope[name] && mc.stepNo%6 == 5 {
+		// Occasionally two values of one scope share a name (the API does not
+		// prevent it; the printed IR is then invalid, but must still not depend
+		// on when it was looked at).
+		mc.probes["two values share a name"]++
+		return name
 	}
 	if scope[name] {
 		name = fmt.Sprintf("%s.%d", name, mc.stepNo)
@@ -467,6 +475,21 @@ func (mc *machine) newInst(f *mfunc, k, c, d int) ir.Instruction {
 		x := mc.pick(f, tI32, c)
 		in = ir.NewInstFreeze(x)
 		mc.use(in, x)
+	case 32:
+		in = ir.NewAlloca(tPair)
+	case 33:
+		// getelementptr into a struct: the result type depends on the VALUE of the
+		// last (constant) index.
+		ps := mc.values(f, tPPair)
+		if len(ps) == 0 {
+			in = ir.NewAlloca(tPair)
+		} else {
+			p := ps[c%len(ps)]
+			i0, i1 := constant.NewInt(tI32, 0), constant.NewInt(tI32, int64(d%2))
+			in = ir.NewGetElementPtr(tPair, p, i0, i1)
+			mc.use(in, p)
+			mc.probes["struct getelementptr"]++
+		}
 	case 31:
 		// The address of a block of another (or the same) function as an operand.
 		of := mc.fn(c)
